@@ -600,6 +600,58 @@ func runC04(r *mc.Run) {
 		eval(id, hc.qi, ti, true)
 	})
 	r.SectionDone(mc.Section{Name: "unsorted-level-lists", Evaluations: int64(doneH), Exhaustive: doneH == len(humps)})
+	// the platform side of the comparison comes from the PCK certificate: a component (or the PCESVN) written there as
+	// a NEGATIVE DER INTEGER of the field's width (02 01 90 is -112, not 144) states no SVN at all; a level that needs
+	// 144 is not reached through it. Control: the same value properly encoded (02 02 00 90) is.
+	{
+		T := world.CachedPKI("T")
+		n := 0
+		for _, k := range []int{0, 7, 15, 16} {
+			for _, neg := range []bool{false, true} {
+				id := fmt.Sprintf("certificate-encoding/member%d-as-%s", k+1, map[bool]string{false: "proper-integer", true: "negative-integer-of-the-field-width"}[neg])
+				if !r.Want(id) {
+					continue
+				}
+				n++
+				w := world.Honest("T")
+				if k < 16 {
+					w.Plat.CPUSVN[k] = 0x90
+				} else {
+					w.Plat.PCESVN = 0x9000
+				}
+				top, tcb := world.SGXElems(w.Plat)
+				if neg {
+					oid := world.DEROID(world.SGXOid(2, k+1))
+					if k < 16 {
+						tcb[k] = world.DERSeq(oid, world.DER(0x02, []byte{0x90}))
+					} else {
+						tcb[k] = world.DERSeq(oid, world.DER(0x02, []byte{0x90, 0x00}))
+					}
+				}
+				ext := world.DERSeq(top["ppid"], world.SGXTcbElem(tcb), top["pceid"], top["fmspc"], top["type"])
+				pk := *T
+				pk.Leaf = world.MakeCert(world.CertSpec{CN: world.CNLeaf, Key: T.LeafKey, SGXExt: ext}, T.Inter, T.InterKey)
+				w.PKI = &pk
+				w.Spec.PKI = w.PKI
+				w.Parts = w.Spec.Parts()
+				w.TcbInfo = world.DefaultTcbInfo(w.Plat, w.Parts.Body[0:16])
+				w.Finish()
+				err := world.SafeVerifyRaw(w.Raw(), w.Options(world.L1))
+				out := verdict(err)
+				switch {
+				case world.IsPanic(err):
+				case neg && err == nil:
+					r.Violate("accepted:certificate-states-no-svn", id, "quote accepted at a level that needs 144 / 0x9000 although the PCK certificate writes that member as a negative INTEGER", nil)
+					out = "accept!"
+				case !neg && err != nil:
+					r.Violate("rejected:proper-certificate", id, "quote rejected although the certificate states the SVN the level needs: "+errStr(err), nil)
+					out = "reject!"
+				}
+				r.Eval(id, true, "certificate-encoding:"+out)
+			}
+		}
+		r.SectionDone(mc.Section{Name: "certificate-encodings", Evaluations: int64(n), Exhaustive: true})
+	}
 	r.SectionDone(mc.Section{Name: "long-level-lists", Evaluations: int64(doneL), Exhaustive: doneL == len(longs),
 		Note: "platform level lists (and module identity level lists) of 8..100 levels, first match at selected positions x every status"})
 }
